@@ -13,6 +13,7 @@ void vf_unreachable(void) { VF_FAIL("UB: llvm unreachable executed"); }
 void vf_trap(void) { VF_FAIL("trap/abort executed"); }
 void vf_unsupported(const char* w) { VF_FAIL("translator: unsupported construct reached"); }
 void vf_assume(uint32_t c) { VF_ASSUME(c); }
+void vf_objcopy(uint8_t* dst, uint8_t* src, uint64_t n) { memcpy(dst, src, n); }
 #ifdef VF_GEN
 void vf_run_harness(void (*f)(void)) { f(); }
 #endif
@@ -121,6 +122,9 @@ void vf_event(uint32_t kind, uint64_t a, uint64_t b, uint64_t c, uint64_t d) {
   vf_on_event((int)kind, (int64_t)a, (int64_t)b, (int64_t)c, (int64_t)d);
   vf_seq++;
 }
+
+/* uuid stub helper: "u<serial>" -> serial, anything else -> -1 */
+uint32_t vf_uuid_serial_of(uint8_t* s) { if (!s || s[0] != 'u') return (uint32_t)-1; int v = 0, any = 0; for (int i = 1; i < 12 && s[i]; i++) { if (s[i] < '0' || s[i] > '9') return (uint32_t)-1; v = v * 10 + (s[i] - '0'); any = 1; } return any ? (uint32_t)v : (uint32_t)-1; }
 
 /* ------------------------------------------------------------------ config table */
 int64_t vf_cfg[VF_CFG_N][VF_CFG_M];
